@@ -301,7 +301,8 @@ pub fn can_join(prev: &Lexeme, next: &Lexeme) -> bool {
     }
 }
 
-const WS: &[&str] = &[" ", " ", "  ", "\t", "\n", "\r\n", "\n\n", " \n ", "\u{85}", "\u{2028}", "\u{c}"];
+// every character of Pattern_White_Space occurs, alone and in runs
+const WS: &[&str] = &[" ", " ", "  ", "\t", "\n", "\r\n", "\n\n", " \n ", "\u{85}", "\u{2028}", "\u{c}", "\u{b}", "\r", "\u{200e}", "\u{200f}", "\u{2029}", "\u{b}\u{c}", " \u{200e} "];
 
 fn gen_comment(src: &mut Src) -> String {
     const POOL: &[char] = &['a', ' ', '"', '\'', '0', '$', '#', '@', 'é', '中', ';', 'p', 'O', '.', '1'];
@@ -452,7 +453,7 @@ pub fn gen_malformed(src: &mut Src, allow_swallow: bool) -> Lexeme {
             lx(p, "INT_NUMBER", Cls::Number, "int-no-digits-suffix")
         }
         5 => {
-            let p = ["1e", "1E", "2.5e", "1.5e+", "3e-", ".5e", "1_0e", "7.25E+"][src.below(8)];
+            let p = ["1e", "1E", "2.5e", "1.5e+", "3e-", ".5e", "1_0e", "7.25E+", "0e", "0E", "0e+", "0E-", "0.e", "00e", "0.0E+", ".0e", "0_0e-"][src.below(17)];
             lx(p, "FLOAT_NUMBER", Cls::Number, "float-empty-exponent")
         }
         6 => {
